@@ -28,15 +28,15 @@ Section CheckCC.
   Variable boot : conf.
   Variable page1 : bool.
 
-  Definition cev_okb (x : cxstate) (id : nat) (ev : event) : bool :=
+  Definition cev_okb (x : cxstate) (id : nat) (ev : cevent) : bool :=
     match ev with
-    | EvRecv m => memb_msg m (cx_msgs x) && (m_to m =? id)
+    | CEv (EvRecv m) => memb_msg m (cx_msgs x) && (m_to m =? id)
     | _ => true
     end.
 
-  Definition check_step_cc (x : cxstate) (id : nat) (ev : event) (obs_out : list msg)
+  Definition check_step_cc (x : cxstate) (id : nat) (ev : cevent) (obs_out : list msg)
              (obs : nproj) (obs_cfg : conf) : cverdict :=
-    let r := exec_cc boot page1 id ev (cx_nodes x id) in
+    let r := exec_cce boot page1 id ev (cx_nodes x id) in
     let n' := fst (fst r) in
     let replies := snd r in
     let extra := filter (fun m => negb (memb_msg m replies)) obs_out in
@@ -58,9 +58,9 @@ Section CheckCC.
   Proof.
     intros x id ev obs_out obs obs_cfg x' H. unfold check_step_cc in H.
     destruct (negb (cev_okb x id ev)) eqn:Eev; [discriminate|]. apply negb_false_iff in Eev.
-    destruct (find (fun m => negb (memb_msg m obs_out)) (snd (exec_cc boot page1 id ev (cx_nodes x id)))); [discriminate|].
-    destruct (find (fun m => negb (emit_cc_okb id (fst (fst (exec_cc boot page1 id ev (cx_nodes x id)))) m))
-                   (filter (fun m => negb (memb_msg m (snd (exec_cc boot page1 id ev (cx_nodes x id))))) obs_out)) eqn:Ef; [discriminate|].
+    destruct (find (fun m => negb (memb_msg m obs_out)) (snd (exec_cce boot page1 id ev (cx_nodes x id)))); [discriminate|].
+    destruct (find (fun m => negb (emit_cc_okb id (fst (fst (exec_cce boot page1 id ev (cx_nodes x id)))) m))
+                   (filter (fun m => negb (memb_msg m (snd (exec_cce boot page1 id ev (cx_nodes x id))))) obs_out)) eqn:Ef; [discriminate|].
     destruct (proj_eqb _ obs && conf_eqb _ obs_cfg); [|discriminate]. injection H as <-.
     apply CXStep.
     - intros m ->. cbn [cev_okb] in Eev. apply andb_true_iff in Eev as [E1 E2].
@@ -75,13 +75,13 @@ Section RunCC.
   Variable boot : conf.
   Variable page1 : bool.
 
-  Definition model_step_cc (x : cxstate) (id : nat) (ev : event) (extra : list msg) : option cxstate :=
-    let r := exec_cc boot page1 id ev (cx_nodes x id) in
+  Definition model_step_cc (x : cxstate) (id : nat) (ev : cevent) (extra : list msg) : option cxstate :=
+    let r := exec_cce boot page1 id ev (cx_nodes x id) in
     if cev_okb x id ev && forallb (emit_cc_okb id (fst (fst r))) extra
     then Some (mkCX (upd (cx_nodes x) id (fst r)) (cx_msgs x ++ snd r ++ extra))
     else None.
 
-  Fixpoint run_cc (x : cxstate) (tr : list (nat * event * list msg)) : option cxstate :=
+  Fixpoint run_cc (x : cxstate) (tr : list (nat * cevent * list msg)) : option cxstate :=
     match tr with
     | [] => Some x
     | (id, ev, extra) :: t =>
@@ -94,7 +94,7 @@ Section RunCC.
   Lemma model_step_cc_sound : forall x id ev extra x', model_step_cc x id ev extra = Some x' -> cxstep boot page1 x x'.
   Proof.
     intros x id ev extra x' H. unfold model_step_cc in H.
-    destruct (cev_okb x id ev && forallb (emit_cc_okb id (fst (fst (exec_cc boot page1 id ev (cx_nodes x id))))) extra) eqn:E; [|discriminate].
+    destruct (cev_okb x id ev && forallb (emit_cc_okb id (fst (fst (exec_cce boot page1 id ev (cx_nodes x id))))) extra) eqn:E; [|discriminate].
     injection H as <-. apply andb_true_iff in E as [E1 E2]. apply CXStep; [|exact E2].
     intros m ->. cbn [cev_okb] in E1. apply andb_true_iff in E1 as [A B].
     split; [apply memb_In; exact A|apply Nat.eqb_eq; exact B].
